@@ -177,8 +177,10 @@ class MNF:
             if d in ("numpy.dot", "numpy.matmul") and len(a) == 2:
                 return mul(self.nf(a[0]), self.nf(a[1]))
             if d in ORDER_KEEPING and len(a) == 1:
-                v = self.nf(a[0])
-                return v
+                dt = {k: v_ for k, v_ in t[3] if k != "$draw"}.get("dtype")
+                if dt is not None and dt not in (("extref", "float"), ("extref", "numpy.float64"), ("const", "float")):
+                    return self.opaque(t)          # a cast that may change the values
+                return self.nf(a[0])
             if d == "numpy.sqrt" and len(a) == 1:
                 return {(("P", key(self.nf(a[0])), "0.5"),): Fraction(1)}
             return self.opaque(t)
@@ -317,10 +319,12 @@ def rscale(nf, c):
     return {m: v * c for m, v in nf.items()}
 
 
-def strip_wrappers(t):
-    """drop order-keeping wrappers everywhere in a term"""
+def strip_wrappers(t, any_dtype=True):
+    """drop order-keeping wrappers everywhere in a term (a dtype= keyword does not change order or length)"""
     if not isinstance(t, tuple):
         return t
-    if t and t[0] == "ext" and t[1] in ORDER_KEEPING and len(t[2]) == 1 and not t[3]:
-        return strip_wrappers(t[2][0])
-    return tuple(strip_wrappers(c) if isinstance(c, tuple) else c for c in t)
+    if t and t[0] == "ext" and t[1] in ORDER_KEEPING and len(t[2]) == 1:
+        kws = {k for k, _ in t[3] if k != "$draw"}
+        if not kws or (any_dtype and kws <= {"dtype", "copy"}):
+            return strip_wrappers(t[2][0], any_dtype)
+    return tuple(strip_wrappers(c, any_dtype) if isinstance(c, tuple) else c for c in t)
